@@ -4,6 +4,10 @@
 
 #include "chibi/eval.h"
 
+#ifdef CHIBI_VERIF
+extern void sexp_verif_hold (int delta);
+#endif
+
 #if SEXP_USE_DEBUG_VM || SEXP_USE_PROFILE_VM || SEXP_USE_STATIC_LIBS
 #include "opt/opcode_names.h"
 #endif
@@ -532,6 +536,9 @@ void sexp_init_eval_context_globals (sexp ctx) {
 
 sexp sexp_make_eval_context (sexp ctx, sexp stack, sexp env, sexp_uint_t size, sexp_uint_t max_size) {
   sexp_gc_var1(res);
+#ifdef CHIBI_VERIF
+  if (!ctx) sexp_verif_hold(1);
+#endif
   res = sexp_make_context(ctx, size, max_size);
   if (!res || sexp_exceptionp(res))
     return res;
@@ -573,6 +580,9 @@ sexp sexp_make_eval_context (sexp ctx, sexp stack, sexp env, sexp_uint_t size, s
       /* TODO: make the root a global (with friendly error in/out) */
       sexp_context_dk(res) = sexp_make_vector(res, SEXP_FOUR, SEXP_FALSE);
       sexp_vector_set(sexp_context_dk(res), SEXP_ZERO, SEXP_ZERO);
+#ifdef CHIBI_VERIF
+      sexp_verif_hold(-1);
+#endif
     }
   }
   return res;
